@@ -80,7 +80,9 @@ def run(ctx):
     extra = [("build16-nf1", lambda: fatspec.build(16, clusters=4100, nf=1, rootent=32) and (fatspec.build(16, clusters=4100, nf=1, rootent=32)[0], dict(source="build", ft=16, clusters=4100, nf=1, rootent=32))),
              ("build16-nf3", lambda: (fatspec.build(16, clusters=4100, nf=3, rootent=32)[0], dict(source="build", ft=16, clusters=4100, nf=3, rootent=32))),
              ("build32-tiny-nf3", lambda: (fatspec.build(32, clusters=200, nf=3)[0], dict(source="build", ft=32, clusters=200, nf=3))),
-             ("build32-tiny-nf1", lambda: (fatspec.build(32, clusters=200, nf=1)[0], dict(source="build", ft=32, clusters=200, nf=1)))]
+             ("build32-tiny-nf1", lambda: (fatspec.build(32, clusters=200, nf=1)[0], dict(source="build", ft=32, clusters=200, nf=1))),
+             # FSInfo with real hints, as a formatter that maintains them leaves it (C11-m9: the hints "invalidated" at mount BEFORE the volume is marked)
+             ("build32-fsinfo-hints", lambda: (fatspec.build(32, clusters=260, nf=2, fsinfo_hints=(257, 3))[0], dict(source="build", ft=32, clusters=260, nf=2, fsinfo_hints=[257, 3])))]
     vols = vols + extra
     m = Model()
     built = {}
